@@ -888,6 +888,16 @@ def extract_item(kind, kv, sections, unit_rewrites, extra_drop, audit, verus):
 
     t = strip_comments_attrs(raw, audit, item)
     t = lex(text(t))
+    # R6 rewrites that must see macro arguments (e.g. an SQL snippet inside format!): applied before R2-R5
+    pre_rw = []
+    for d, arg, body in sections:
+        if d == 'prerewrite':
+            mm = ARROW.match(arg)
+            if not mm:
+                raise ExtractError(f"bad //@prerewrite in {item}")
+            pre_rw.append(('R6', unq(mm.group(1)), unq(mm.group(2)), 'optional' not in mm.group(3)))
+    if pre_rw:
+        t = apply_rewrites(t, pre_rw, audit, item)
     t = erase_async(t, audit, item)
     t = lex(text(t))
     if kv.get('foreach'):
@@ -936,6 +946,8 @@ def extract_item(kind, kv, sections, unit_rewrites, extra_drop, audit, verus):
         elif d == 'closure':
             mm = re.match(r'^"((?:[^"\\]|\\.)*)"', arg)
             closures.append((unq(mm.group(1)), btxt.strip()))
+        elif d == 'prerewrite':
+            pass
         elif d == 'verus-only' or d == 'note':
             pass
         else:
